@@ -82,6 +82,9 @@ def vp_bytes(ex, st, fr, ins, args):
     slots = []
     for i in range(n):
         k = _key(st, '%s[%d]' % (name, i))
+        if k in ex.presets:
+            slots.append(ex.presets[k])
+            continue
         v = z3.BitVec(k, 8)
         st.nondet[k] = ('int', 8, v)
         slots.append(v)
@@ -370,20 +373,18 @@ def _trig(name, lo, hi, contract):
     def f(ex, st, fr, ins, args):
         a = args[0]
         if fpops.is_conc(a):
+            # concrete arguments: libm value (agrees with Go's implementation to
+            # within an ulp or so; only used by the concrete translator self-test
+            # and for special values)
             x = a.v
-            if name == 'sin':
-                fn = math.sin
-            elif name == 'cos':
-                fn = math.cos
-            else:
-                fn = None
-            # concrete arguments: use the libm value (Go's pure-Go/assembly
-            # implementations agree with libm to within an ulp; only special
-            # values are relied on by harnesses)
-            if x == 0.0 and name == 'sin':
-                return FV(64, x)
-            if x == 0.0 and name == 'cos':
-                return FV(64, 1.0)
+            try:
+                if name == 'sin':
+                    return FV(64, math.sin(x))
+                if name == 'cos':
+                    return FV(64, math.cos(x))
+                return FV(64, math.acos(x))
+            except (ValueError, OverflowError):
+                return FV(64, math.nan)
         uf = _uf(name)
         ex.res.stubs.add('math.%s: uninterpreted function, contract: %s' % (name.capitalize(), contract))
         if fpops.is_real(a):
